@@ -662,16 +662,9 @@ def broadcast_and_apply(  # noqa: C901
                     len(stops) != 0 and offsets[-1] != stops[-1]
                 ):
                     return False
-            elif isinstance(x, ak.layout.RegularArray):
-                if x.size == 0:
-                    my_offsets = nplike.empty(0, dtype=np.int64)
-                else:
-                    my_offsets = nplike.arange(0, len(x.content), x.size)
-                if offsets is None:
-                    offsets = my_offsets
-                elif not nplike.array_equal(offsets, my_offsets):
-                    return False
             elif isinstance(x, ak.layout.Content):
+                # (including RegularArray: the shortcut taken when this function returns
+                # True only knows how to reuse the contents of ListOffsetArray/ListArray)
                 return False
         else:
             # the contents can be used as they are only if nothing precedes the
